@@ -206,7 +206,8 @@ func (pp *pipe) await(done <-chan struct{}) bool {
 	select {
 	case <-done:
 		return true
-	case <-time.After(stuckProbeAt):
+	case <-time.After(patience()):
+		patienceExpired()
 	}
 	type snap struct{ st, ent, ex, bar, in, em int64 }
 	take := func() snap {
@@ -222,7 +223,7 @@ func (pp *pipe) await(done <-chan struct{}) bool {
 		case <-time.After(stuckEvery):
 		}
 		cur := take()
-		if cur.st == prev.st+1 && cur.ent == prev.ent && cur.ex == prev.ex && cur.bar == prev.bar && cur.in == prev.in && cur.em == prev.em {
+		if cur.st == prev.st+1 && cur.ent == prev.ent && cur.ex == prev.ex && cur.bar == prev.bar && cur.in == prev.in && cur.em == prev.em && !harnessGoroutineRunnable() {
 			same++
 		} else {
 			same = 0
@@ -232,13 +233,13 @@ func (pp *pipe) await(done <-chan struct{}) bool {
 			continue
 		}
 		decided = true
-		total := int64(pp.k) + m.n
-		if pp.p.Barrier && cur.in == cur.bar && cur.bar < m.n && cur.em < total {
+		if pp.p.Barrier && cur.in == cur.bar && cur.bar < m.n {
+			leakVerdict(m.prim)
 			phase := "after-normal-exits"
 			if m.panics.Load() > 0 {
 				phase = "after-holder-panics"
 			}
-			m.viol("leak/"+phase, fmt.Sprintf("%s %s with %d workers: %d of %d regular items have left the region (%d panicked), nobody else is inside, yet only %d of %d further items are admitted together and item #%d is not taken from the source; nothing moved in %d consecutive samples - worker capacity was lost",
+			m.viol("leak/"+phase, fmt.Sprintf("%s %s with %d workers: %d of %d regular items have left the region (%d panicked), nobody else is inside, yet only %d of %d further items are admitted together (%d items handed over so far); nothing moved in %d consecutive samples - worker capacity was lost",
 				m.prim, pp.p.API, m.n, cur.ex, pp.k, m.panics.Load(), cur.bar, m.n, cur.em, stuckSamples),
 				map[string]any{"items_left_region": cur.ex, "barrier_items_inside": cur.bar, "items_handed_over": cur.em, "goroutines": stacksBrief()})
 		} else {
@@ -284,6 +285,9 @@ func genPipePlan(r *kit.Rand, prim string, apis []string) pipePlan {
 // ---------------------------------------------------------------- mr
 
 func mrCase(c *kit.Case) {
+	if skipAfterLeak(c, "mr") {
+		return
+	}
 	p := genPipePlan(c.R, "mr", []string{"ForEach", "MapReduce", "MapReduceVoid", "MapReduceChan"})
 	pp := newPipe(c, p)
 	generate := func(source chan<- int) {
@@ -346,6 +350,9 @@ func mrCase(c *kit.Case) {
 // ---------------------------------------------------------------- fx
 
 func fxCase(c *kit.Case) {
+	if skipAfterLeak(c, "fx") {
+		return
+	}
 	p := genPipePlan(c.R, "fx", []string{"Walk", "Parallel", "Map", "Filter"})
 	pp := newPipe(c, p)
 	src := func() fx.Stream {
